@@ -508,6 +508,47 @@ theorem lookupLoop_safe (B : Nat) (ll : LookupList) (gd : Gdef) (lk : Lookup)
       split <;> omega
     · exact hst
 
+/-- a reverse lookup (all subtables GSUB 8.1) has no contextual subtable -/
+theorem rev_simple {ss : List Subtable} (h : ss.all Subtable.isRev81 = true) :
+    ss.all (fun s => !s.contextual) = true := by
+  apply List.all_eq_true.mpr
+  intro s hs
+  have := List.all_eq_true.mp h s hs
+  cases s <;> simp [Subtable.isRev81, Subtable.contextual] at this ⊢
+
+theorem revLoop_safe (gd : Gdef) (lk : Lookup) (hg : lk.guarded = true) (hrev : lk.reverse = true) :
+    ∀ (n : Nat) (st : St), n ≤ st.seq.length → st.stack = [] →
+    Safe (fun st' => st'.stack = []) (revLoop gd lk n st) := by
+  have hall : lk.subtables.all Subtable.isRev81 = true := by
+    unfold Lookup.reverse at hrev; simp only [Bool.and_eq_true] at hrev; exact hrev.2
+  intro n
+  induction n with
+  | zero => intro st _ hst; simp only [revLoop]; exact hst
+  | succ n ih =>
+    intro st hn hst
+    simp only [revLoop]
+    refine Safe.bind (idx_safe (by omega : n < st.seq.length)) ?_
+    intro g _ _
+    split
+    · refine Safe.bind (applyAt_safe _ st n (by omega) hst lk.subtables hg (rev_simple hall)) ?_
+      intro r hr hnil
+      cases r with
+      | none => exact ih st (by omega) hst
+      | some r =>
+        obtain ⟨st1, nx⟩ := r
+        have h := applyAt_rev _ _ _ _ _ _ _ hall hr
+        exact ih st1 (by rw [h.2.1]; omega) (by rw [h.1]; exact hst)
+    · exact ih st (by omega) hst
+
+theorem applyLookup_safe (B : Nat) (ll : LookupList) (gd : Gdef) (lk : Lookup)
+    (hg : lk.guarded = true) (hs : lk.simple = true) (st : St) (hst : st.stack = []) :
+    Safe (fun st' => st'.stack = []) (applyLookup B ll gd lk st) := by
+  unfold applyLookup
+  split
+  · rename_i hrev
+    exact revLoop_safe gd lk hg hrev _ st (Nat.le_refl _) hst
+  · exact lookupLoop_safe B ll gd lk hg hs st.seq.length st 0 (Int.le_refl _) hst
+
 theorem applyLookups_safe (B : Nat) (ll : LookupList) (gd : Gdef)
     (hg : guardedLL ll = true) (hs : simpleLL ll = true) :
     ∀ (lookups : List Nat) (st : St), st.stack = [] → Safe (fun st' => st'.stack = []) (applyLookups B ll gd lookups st) := by
@@ -523,7 +564,7 @@ theorem applyLookups_safe (B : Nat) (ll : LookupList) (gd : Gdef)
       have hmem : lk ∈ ll := List.mem_of_getElem? hlk
       have hg' : lk.guarded = true := List.all_eq_true.mp hg lk hmem
       have hs' : lk.simple = true := List.all_eq_true.mp hs lk hmem
-      refine Safe.bind (lookupLoop_safe B ll gd lk hg' hs' st.seq.length st 0 (Int.le_refl _) hst) ?_
+      refine Safe.bind (applyLookup_safe B ll gd lk hg' hs' st hst) ?_
       intro st1 _ h1
       exact ih st1 h1
 
